@@ -24,6 +24,7 @@ import Props.Gen16v
     loadSurroundings_settled loaders run to completion = Ui.loadSurroundings
     switchTo_eq              = Ui.switchTo (item, list of 0 / 1 / more items, container)
     subcommand_eq            = Ui.subcommand (`open`, `feed` known and unknown, other names)
+    Subcommand_eq            the entry point: an unknown feed refused before anything happens
     env_loadSurroundings, env_switchTo, env_subcommand, update_eq_translated
                              the action parameters of the translated `Update` (Props/Gen07.lean) are
                              this translated code: `Update` over `env2` is `Ui.update`
@@ -696,6 +697,34 @@ theorem subcommand_eq (w : World) (wd ht : Int) (s : Ui.State) (name arg : Str) 
     · have hn : ¬ (name = "open".toList ∨ name = "feed".toList) := fun h => h.elim h1 h2
       simp only [hn, if_false]; exact subcommand_unknown w wd ht s name arg hn
 
+
+/-- **`Subcommand`** (the entry point main.go calls): `feed` with a name that is not configured is
+    refused before anything happens — the state untouched, nothing drawn, nothing started, the
+    error text the source builds —; everything else is `subcommand`, its frames, goroutines and
+    error handed on. -/
+theorem Subcommand_eq (cfg : GenSwitch.Cfg) (g : SState) (name arg : Str) :
+    GenSwitch.Subcommand cfg g name arg =
+      if name = "feed".toList ∧ cfg.feeds arg = none then
+        .ok (⟨g, [], []⟩, some ("failed to open feed: ".toList ++ arg ++ " is not a known feed".toList))
+      else
+        match GenSwitch.subcommand cfg g name arg with
+        | .error e => .error e
+        | .ok r => .ok (⟨r.1.state, r.1.frames, r.1.started⟩, r.2) := by
+  unfold GenSwitch.Subcommand
+  by_cases hn : name = "feed".toList
+  · cases hf : cfg.feeds arg with
+    | none => simp [hn, hf, Go.str, bind, Except.bind, pure, Except.pure]
+    | some inputs =>
+      simp only [hn, hf, Go.str, bind, Except.bind, pure, Except.pure, decide_true, if_true, Option.isSome_some,
+        Bool.not_true, Bool.false_eq_true, if_false, reduceCtorEq, and_false, List.nil_append]
+      cases GenSwitch.subcommand cfg g "feed".toList arg with
+      | error e => rfl
+      | ok r => obtain ⟨o, err⟩ := r; cases err <;> rfl
+  · simp only [hn, Go.str, bind, Except.bind, pure, Except.pure, decide_false, Bool.false_eq_true, if_false, false_and,
+      List.nil_append]
+    cases GenSwitch.subcommand cfg g name arg with
+    | error e => rfl
+    | ok r => obtain ⟨o, err⟩ := r; cases err <;> rfl
 
 /-! ### The action parameters of the translated `Update` (Gen07) are translated code -/
 
